@@ -22,7 +22,7 @@ RULE = ("A valid current-version document of each format (text written by the li
         "structurally mutated documents (delete / null / int / str / list / empty / swap at any JSON path or INI option): IF "
         "the load succeeds THEN dumps() succeeds, its reload succeeds and the second dump is byte-identical. Non-trivial = "
         "the corrupted position is below the top level and the mutated document still parses as JSON/INI; distinct = SHA-1 "
-        "of document+corruption. Pattern fields additionally receive mechanically derived near misses (single-character edits of valid exemplars rejected by regex-free reference predicates); records sharing an identity get the checksums of ONE copy changed; thorough tier adds an atheris/libFuzzer campaign over the same metamorphic target.")
+        "of document+corruption. Pattern fields additionally receive mechanically derived near misses (single-character edits of valid exemplars rejected by regex-free reference predicates); records sharing an identity get the checksums of ONE copy changed; thorough tier adds an atheris/libFuzzer campaign over the same metamorphic target. A refused document is offered to the same object a second time (a retry teaches the object nothing); UID clashes and 'src' as a foreign child arch are part of the rule table; same-field copies between records are part of the metamorphic mutations.")
 ASSUMPTIONS = ["values the readers documentedly coerce (numeric strings for image integers, truthy values for booleans, upper-case release type, empty label) are not corruptions",
                "treeinfo: [header] and [tree] have a documented legacy fallback and are not 'required'; rpms/modules/extra_files: only header and compose section are validated"]
 FLOORS = {"distinct_nontrivial": 1500, "corruption": 600, "neighbourhood-sweep": 300, "metamorphic": 500, "metamorphic:load-succeeded": 100}
@@ -93,7 +93,7 @@ def json_candidates(fmt, doc):
             var = ["payload", "variants", uid]
             v = p["variants"][uid]
             out += [(var + [k], DELETE) for k in ("id", "uid", "name", "type", "arches", "paths")]
-            out += [(var + ["id"], x) for x in ["a-b", "a b", "", None, "x.y"] + rules.BAD_VARIANT_IDS[::5]] + [(var + ["name"], x) for x in ["", None, 5]]
+            out += [(var + ["id"], x) for x in ["a-b", "a b", "", None, "x.y", "S\u00e9rveur", "Server\u0662"] + rules.BAD_VARIANT_IDS[::5]] + [(var + ["name"], x) for x in ["", None, 5]]
             out += [(var + ["type"], x) for x in ["bogus", None, "Variant", ""]] + [(var + ["arches"], x) for x in [[], None, 5]]
             out += [(var + ["uid"], "X" + v["uid"]), (var + ["uid"], v["uid"] + "x")]
             out += [(var + ["uid"], o) for o in sorted(p["variants"]) if o != uid]          # claims the UID of another variant
@@ -189,9 +189,9 @@ def ini_candidates(ini):
     out += [(("header", "type"), t) for f, t in sorted(TYPES.items()) if f != "treeinfo"] + [(("header", "type"), DELETE)]
     out += [(("header", "<<both>>"), (v, t)) for v, t in [("1.1", "productmd.images"), ("1.1", "productmd.composeinfo"), ("1.3", "productmd.rpms"), ("2.0", "productmd.images")]]
     out += [(("release", None), DELETE), (("release", "name"), DELETE), (("release", "version"), DELETE)]
-    out += [(("release", "version"), v) for v in ["1.", "1..2", "1a"]] + [(("release", "is_layered"), v) for v in ["maybe", "2"]]
+    out += [(("release", "version"), v) for v in ["1.", "1..2", "1a", "\u0667.x", "\uff17-beta"]] + [(("release", "is_layered"), v) for v in ["maybe", "2"]]
     if "base_product" in ini:
-        out += [(("base_product", None), DELETE)] + [(("base_product", k), DELETE) for k in ("name", "version", "short")] + [(("base_product", "version"), "1."), (("base_product", "version"), "1a")]
+        out += [(("base_product", None), DELETE)] + [(("base_product", k), DELETE) for k in ("name", "version", "short")] + [(("base_product", "version"), "1."), (("base_product", "version"), "1a"), (("base_product", "version"), "\u0667.x")]
     out += [(("tree", "arch"), ""), (("tree", "arch"), DELETE), (("tree", "build_timestamp"), "x"), (("tree", "build_timestamp"), "0"), (("tree", "build_timestamp"), DELETE),
             (("tree", "platforms"), DELETE)]
     for sec in sorted(ini):
